@@ -12,7 +12,7 @@ use std::time::{SystemTime, UNIX_EPOCH, Duration};
 use std::thread;
 
 use crate::error::{FerrousError, Result};
-use crate::storage::{StorageEngine, Value, GetResult};
+use crate::storage::{StorageEngine, Value};
 
 /// RDB file version (Redis 9 compatible)
 const RDB_VERSION: u16 = 9;
@@ -239,9 +239,10 @@ impl RdbEngine {
             
             // Write all key-value pairs
             for key in keys {
-                if let GetResult::Found(value) = storage.get(db, &key)? {
+                // Value and TTL of a key are read under one lock acquisition
+                if let Some((value, ttl)) = storage.get_with_ttl(db, &key)? {
                     // Check for expiration
-                    let expire_time = storage.ttl(db, &key)?
+                    let expire_time = ttl
                         .map(|ttl| SystemTime::now() + ttl);
                     
                     // Write expiration if present
@@ -295,7 +296,7 @@ impl RdbEngine {
                             }
                         }
                         Value::SortedSet(skiplist) => {
-                            let items = skiplist.range_by_rank(0, skiplist.len() - 1).items;
+                            let items = skiplist.get_all_items();
                             self.write_length(&mut buffer, items.len())?;
                             for (member, score) in items {
                                 self.write_length(&mut buffer, member.len())?;
@@ -433,16 +434,13 @@ impl RdbEngine {
                 
                 // Write each key-value pair
                 for key in keys {
-                    // Get value
-                    match storage.get(db_idx, &key)? {
-                        GetResult::Found(value) => {
-                            // Get TTL if any
-                            let ttl = storage.ttl(db_idx, &key)?;
-                            
+                    // Get value and TTL under one lock acquisition
+                    match storage.get_with_ttl(db_idx, &key)? {
+                        Some((value, ttl)) => {
                             // Write key-value pair
                             writer.write_key_value(&key, &value, ttl)?;
                         }
-                        _ => {
+                        None => {
                             // Key doesn't exist or expired, skip
                         }
                     }
@@ -564,14 +562,11 @@ impl<W: Write> RdbWriter<W> {
                 self.write_byte(RdbOpcode::ZSet as u8)?;
                 self.write_string(key)?;
                 
-                // Get all items and write them
-                let len = skiplist.len();
-                self.write_length(len)?;
-                
-                // Note: This is a suboptimal approach since we need to materialize
-                // all members in memory. A better approach would be to have a streaming
-                // iterator in the SkipList implementation.
-                let items = skiplist.range_by_rank(0, len - 1).items;
+                // Materialise all items in one call (one acquisition of the skip list's
+                // lock) and write the count of exactly those items: the sorted set is shared
+                // with the live dataset and may change while the snapshot is written.
+                let items = skiplist.get_all_items();
+                self.write_length(items.len())?;
                 
                 for (member, score) in items {
                     self.write_string(&member)?;
